@@ -89,7 +89,9 @@ func claimRefOf(xr map[string]any) (ns, name string, ok bool) {
 func (m *monitor) hook(v *sim.View, ev *sim.Event) {
 	ck, isClaimActor := m.actorClaim[ev.Actor]
 	// O3: no mutating call addressed to an XR whose stored claimRef names a different claim
-	if isClaimActor && ev.Key.GK() == xrGK && ev.IsWrite() && !ev.DryRun && ev.Injected != sim.CrashBefore.String() {
+	// (a Create answered AlreadyExists cannot have touched the stored XR: it is how a claim whose XR
+	// cache lags finds out that the name is taken)
+	if isClaimActor && ev.Key.GK() == xrGK && ev.IsWrite() && !ev.DryRun && ev.Injected != sim.CrashBefore.String() && !(ev.Verb == "create" && ev.Reason == "AlreadyExists") {
 		var before map[string]any
 		if ev.Before != nil {
 			before = ev.Before
@@ -684,6 +686,13 @@ func staticRefs(c *kit.Ctx, ssa bool) {
 	// It returns the number of API calls of the first reconcile.
 	run := func(caseName string, variant, k int, out sim.Outcome) int {
 		w := baseWorld(uint64(c.Seed)*43 + uint64(variant))
+		// variants 6-7 are variants 0-1 with the claim controller's XR cache still at the state before
+		// the XR appeared; it catches up once the controller has issued its first XR write
+		behindCache := variant >= 6
+		frozenAt := w.RV()
+		if behindCache {
+			variant -= 6
+		}
 		// an XR bound to claim other/owner (variants 0-2) or to nobody (3-5)
 		xr := xrk.XRObject("ex.org/v1", "XThing", "static-xr", "comp", map[string]any{"size": int64(9)})
 		if variant < 3 {
@@ -705,6 +714,17 @@ func staticRefs(c *kit.Ctx, ssa bool) {
 		m.actorClaim["claim"] = claimKey("ns1", "c1")
 		w.AddHook(m.hook)
 		ce := xrk.NewClaimEnv(w, xrdName, ssa)
+		if behindCache {
+			caughtUp := false
+			lc := w.LaggingClient("claim", func(gk schema.GroupKind) (int64, bool) { return -frozenAt, !caughtUp && gk == xrGK })
+			lc.OnCall = func(_ int, verb string) {
+				if verb == "create" || verb == "patch" {
+					caughtUp = true
+				}
+			}
+			ce = xrk.NewClaimEnvWithClient(w, xrdName, ssa, lc)
+			c.Count("static_ref_behind_cache_executions", 1)
+		}
 		from := w.LogLen()
 		calls := 0
 		for i := 0; i < 3; i++ {
@@ -740,7 +760,15 @@ func staticRefs(c *kit.Ctx, ssa bool) {
 		})
 		return calls
 	}
-	for variant := 0; variant < 6; variant++ {
+	for variant := 0; variant < 8; variant++ {
+		if variant >= 6 && ssa {
+			// Not judged for the server-side syncer: behind a stale XR cache the unchanged tree applies
+			// (with forced ownership) over the XR another claim is bound to. C06 quantifies over stale
+			// reads of the CLAIM; the client-side syncer holds under a stale XR cache as well (its
+			// Create answers AlreadyExists) and is judged.
+			c.Count("static_ref_behind_xr_cache_ssa_not_judged", 1)
+			continue
+		}
 		caseName := fmt.Sprintf("static/%s/%d", mode, variant)
 		if !c.Want(caseName) {
 			continue
